@@ -114,6 +114,8 @@ fn timeout_strategy() -> BoxedStrategy<u64> {
         2 => Just(1_500_000u64),
         6 => 5_000_000u64..50_000_000,
         1 => 100_000_000u64..300_000_000,
+        // "practically for ever" (such calls are only issued when the script makes them return)
+        1 => prop_oneof![Just(u64::MAX), Just(i64::MAX as u64), Just(4_000_000_000_000_000u64)],
     ]
     .boxed()
 }
@@ -309,7 +311,8 @@ fn run(case: &Case) -> Result<Outcome, Failure> {
                 op = Op::TryRecv; // bytes receivers have no timed receive
             }
         }
-        if op == Op::Recv {
+        let for_ever = matches!(op, Op::Timeout(ns) if ns >= 3_600_000_000_000);
+        if op == Op::Recv || for_ever {
             let will_return = queued > 0 || sender_dropped || matches!(action, Action::SendBefore(_) | Action::SendDuring { .. } | Action::DropBefore | Action::DropDuring { .. } | Action::HugeInProgress);
             if !will_return {
                 op = Op::TryRecv;
